@@ -235,6 +235,9 @@ class CoercerMethod(DeserializationMethod):
     method: DeserializationMethod
 
     def deserialize(self, data: Any) -> Any:
+        if isinstance(data, Discriminated):
+            # wrapper put by DiscriminatorMethod around an object, nothing to coerce
+            return self.method.deserialize(data)
         return self.method.deserialize(self.coercer(self.cls, data))
 
 
